@@ -559,13 +559,13 @@ class HistGen:
             return self.op_new()
         self.emit('ser %d' % self.rng.choice(hs))
 
-    def observe_all(self):
+    def observe_all(self, root_p=1.0, rng=None):
         for h in sorted(self.sh.s):
             c = self.sh.s[h]
             self.lines.append('len %d' % h)
             self.lines.append('pending %d' % h)
             self.lines.append('tovec %d' % h)
-            if not c['dirty']:
+            if not c['dirty'] and (root_p >= 1.0 or rng.random() < root_p):
                 self.lines.append('root %d' % h)
         hs = sorted(self.sh.s)
         for i, a in enumerate(hs):
